@@ -27,7 +27,7 @@ def seeded():
     for d in sorted(glob.glob(os.path.join(ROOT, 'seeded', '*', 'meta.json'))):
         m = json.load(open(d))
         name = os.path.basename(os.path.dirname(d))
-        caught = ','.join(m.get('checks_that_catch_it') or []) or ('harmless now' if m.get('harmless') else '**missed**')
+        caught = ','.join(m.get('checks_that_catch_it') or []) or ('harmless now' if m.get('harmless') else 'not caught (outside the stated domain)' if m.get('outside_domain') else '**missed**')
         if m.get('first_version_missed') or 'missed by the first version' in m.get('needs_to_manifest', ''):
             caught += ' (after strengthening; the first version of the check missed it)' if m.get('checks_that_catch_it') else ''
             first += 1
